@@ -7,8 +7,11 @@ the harness numbers the id strings). `serial` is a ghost field: the number of th
 job object (the real code has the pointer identity of `*CronJob`); it never influences the behaviour.
 
 The comparison operators and the presence/order of the decisive statements come from the regenerated
-`RulioModel/Gen/C16.lean` (`readyTest`, `searchTest`, `limitTest`, `scheduleRemsFirst`, …), so a flipped
-comparison or a dropped call in cron.go changes the definitions below. -/
+`RulioModel/Gen/C16.lean` (`readyTest`, `searchTest`, `limitTest`, `scheduleRemsFirst`, `tickRearmsAlways`,
+`popTracksRunning`, `remCancelsRunning`, `rescheduleViaRunning`, …), so a flipped comparison or a dropped call in
+cron.go changes the definitions below. With the four `…Running`/`…Always` flags `false` this is the cron before the
+repairs of C16-rem-head-disarms and C16-rem-in-flight (the timer is re-armed only after a pop; `Cron.run` re-schedules
+through `Cron.schedule` whatever happened while `Fn` ran). -/
 
 namespace CronM
 open C16Gen
@@ -36,8 +39,10 @@ structure Fire where
 structure Cron where
   /-- `Cron.Timeline` -/
   tl : List Job := []
-  /-- jobs whose `Fn` is running in `Cron.run` (popped, not yet re-scheduled) -/
+  /-- ghost: jobs whose `Fn` is running in `Cron.run` (popped; `Fn` has not returned yet) -/
   inflight : List Job := []
+  /-- `Cron.running`: the recurring jobs among them that `Cron.reschedule` will put back (not removed / replaced since) -/
+  running : List Job := []
   log : List Fire := []
   clock : Nat := 0
   /-- ghost: number of `Add` calls so far -/
@@ -67,8 +72,12 @@ def insertJob (j : Job) : List Job → List Job
 def remJob (id : Nat) (tl : List Job) : List Job :=
   if remErases then tl.eraseP (fun j => j.id == id) else tl
 
-/-- the `found` result of `Cron.rem` -/
+/-- an entry with that id exists -/
 def hasJob (id : Nat) (tl : List Job) : Bool := tl.any (fun j => j.id == id)
+
+/-- `Cron.rem`, second loop: cut the entry with that id out of `c.running` -/
+def cancelRunning (id : Nat) (r : List Job) : List Job :=
+  if remCancelsRunning then r.eraseP (fun j => j.id == id) else r
 
 /-- `Cron.resetTimer`: arm for the head of the timeline, stop when empty -/
 def rearm (tl : List Job) : Option Nat := tl.head?.map (·.next)
@@ -83,10 +92,14 @@ def atLimit (s : Cron) (checkLimit : Bool) (tl1 : List Job) : Bool := checkLimit
 /-- `Cron.schedule`; the Bool is `err == nil` -/
 def schedule (s : Cron) (j : Job) (checkLimit : Bool) : Cron × Bool :=
   let tl1 := if scheduleRemsFirst then remJob j.id s.tl else s.tl
-  if atLimit s checkLimit tl1 then ({ s with tl := tl1 }, false)
+  let run1 := if scheduleRemsFirst then cancelRunning j.id s.running else s.running
+  if atLimit s checkLimit tl1 then ({ s with tl := tl1, running := run1 }, false)
   else
     let tl2 := insertJob (schedJob s.clock j) tl1
-    ({ s with tl := tl2, armed := if insertRearms then rearm tl2 else s.armed }, true)
+    ({ s with tl := tl2, running := run1, armed := if insertRearms then rearm tl2 else s.armed }, true)
+
+/-- the `found` result of `Cron.Rem`: the job is pending, or (recurring) its `Fn` is running -/
+def remFound (s : Cron) (id : Nat) : Bool := hasJob id s.tl || (remCancelsRunning && hasJob id s.running)
 
 inductive Op where
   /-- time passes -/
@@ -124,8 +137,19 @@ def tick (s : Cron) : Cron :=
   | j :: rest =>
     if readyTest s1.clock j.next then
       let tl' := if popDropsHead then rest else j :: rest
-      { s1 with tl := tl', inflight := j :: s1.inflight, log := fireOf j s1.clock :: s1.log, armed := rearm tl' }
-    else s1
+      { s1 with tl := tl', inflight := j :: s1.inflight, log := fireOf j s1.clock :: s1.log,
+                running := if popTracksRunning && j.period != 0 then j :: s1.running else s1.running,
+                armed := if popRearms then rearm tl' else s1.armed }
+    else if tickRearmsAlways then { s1 with armed := rearm s1.tl } else s1
+
+/-- `Cron.reschedule`: the job object (pointer identity = `serial`) goes back on the timeline, for its next occurrence,
+only if it is still in `c.running`; no `rem`, no capacity test -/
+def reschedule (s : Cron) (j : Job) : Cron :=
+  if s.running.any (fun x => x.serial == j.serial) then
+    let tl2 := insertJob (schedJob s.clock j) s.tl
+    { s with running := s.running.eraseP (fun x => x.serial == j.serial), tl := tl2,
+             armed := if insertRearms then rearm tl2 else s.armed }
+  else s
 
 /-- the part of `Cron.run` after `job.Fn` returned -/
 def done (s : Cron) (k : Nat) : Cron :=
@@ -133,12 +157,14 @@ def done (s : Cron) (k : Nat) : Cron :=
   | none => s
   | some j =>
     let s1 := { s with inflight := s.inflight.eraseP (fun j => j.serial == k) }
-    if (if j.period = 0 then rescheduleOnce else rescheduleRecurring) then (schedule s1 j false).1 else s1
+    if (if j.period = 0 then rescheduleOnce else rescheduleRecurring) then
+      (if rescheduleViaRunning && j.period != 0 then reschedule s1 j else (schedule s1 j false).1)
+    else s1
 
 def step (s : Cron) : Op → Cron
   | .advance d => { s with clock := s.clock + d }
   | .add id due period => (schedule { s with serial := s.serial + 1 } ⟨id, due, period, s.serial⟩ true).1
-  | .rem id => { s with tl := remJob id s.tl }
+  | .rem id => { s with tl := remJob id s.tl, running := cancelRunning id s.running }
   | .tick => tick s
   | .done k => done s k
   | .suspend => { s with suspended := true, armed := none }
@@ -148,6 +174,18 @@ def step (s : Cron) : Op → Cron
   | .pauseEnd => if s.paused then { s with paused := false, armed := rearm s.tl } else s
 
 def run (s : Cron) (ops : List Op) : Cron := ops.foldl step s
+
+/-- the `time.Timer` contract: an armed timer whose target time has come is delivered to the loop, unless the loop sleeps in a pause -/
+def deliverable (s : Cron) : Bool :=
+  !s.paused && (match s.armed with | some t => decide (t ≤ s.clock) | none => false)
+
+/-- one delivery of the timer under that contract (`none`: no delivery is due) -/
+def deliver (s : Cron) : Option Cron := if deliverable s then some (tick s) else none
+
+/-- `n` deliveries in a row, each one due under the contract -/
+def deliverN : Nat → Cron → Option Cron
+  | 0, s => some s
+  | n + 1, s => (deliver s).bind (deliverN n)
 
 /-- fires of the job object created by the `k`-th `Add` -/
 def firesOf (k : Nat) (s : Cron) : List Fire := s.log.filter (fun f => f.serial == k)
